@@ -25,6 +25,7 @@
 #include "hep/mc/multi_channel_summary.hpp"
 
 #include <cmath>
+#include <cstdio>
 #include <fstream>
 #include <iostream>
 #include <string>
@@ -130,8 +131,17 @@ public:
         if ((mode_ == callback_mode::silent_and_write_chkpt) ||
             (mode_ == callback_mode::verbose_and_write_chkpt))
         {
-            std::ofstream out(filename_);
+            // never expose a partially written checkpoint: write a temporary file next to the
+            // final one and atomically replace the latter once everything is on its way
+            std::string const tmp_filename = filename_ + ".tmp";
+            std::ofstream out(tmp_filename);
             chkpt.serialize(out);
+            out.close();
+
+            if (out)
+            {
+                std::rename(tmp_filename.c_str(), filename_.c_str());
+            }
         }
 
         return perform_more_iterations;
